@@ -287,6 +287,8 @@ def _mon_reqs(row):
             reqs.append('err ' + hs)
         else:
             reqs.append('hold %s %s' % (hs, LC.enc_itoks(r['toks'])))
+    if 'err' not in row['one']:
+        reqs.append('count ' + hs)
     a, b = row['one'], row['lines']
     if 'err' in a or 'err' in b:
         reqs.append('true' if ('err' in a and 'err' in b and a['err'] == b['err']) else 'false')
@@ -412,7 +414,13 @@ def _eval_many_rows(mon, rows):
     out = []
     for r, (a, b) in zip(rows, spans):
         sig = None
-        for lab, x in zip(['one', 'lines', 'chunking'], ans[a:b]):
+        labs = ['one', 'lines'] + (['count'] if 'err' not in r['one'] else []) + ['chunking']
+        for lab, x in zip(labs, ans[a:b]):
+            if lab == 'count':
+                if x != 'NONE' and x != str(r['one']['count']):
+                    sig = 'C07/token-count'
+                    break
+                continue
             if x != 'true':
                 sig = 'C07/chunking' if lab == 'chunking' else _classify(r['src'], x, r[lab])
                 break
